@@ -476,7 +476,7 @@ func c05GenTask(r *Rand, kind string, faults bool, first, second int) TaskPlan {
 		tp.Sets = []VarSet{defaultTmplSet(), {"name": VStr(""), "a": VStr(""), "b": VStr("B")}}
 	}
 	pool := c05Pool(kind)
-	n := r.Range(2, 8+4*Scale)
+	n := r.Range(2, 8+4*r.Size())
 	for i := 0; i < n; i++ {
 		o := Op{Op: "buffer"}
 		if isTokKind(kind) {
